@@ -279,6 +279,13 @@ def run(ctx):
                 c.check(); c.fail("constraint:comparison-returned-%s" % type(rc).__name__, "%s %s %s gave %r" % (a, c_["rel"], b, rc))
                 raise S.Abort()
             cons.append(rc)
+            vals = S.rand_values(rng, vars_)
+            for v in vars_:
+                rv[v.idx].value = matrix([float(t) for t in vals[v.idx]], (v.n, 1), "d")
+            got, want = np.array(list(rc.value()), dtype=float), c_["tree"].fn(vals)
+            if not (got.shape == want.shape and float(np.max(np.abs(got - want))) <= 1e-9 * max(1.0, float(np.max(c_["tree"].mg(vals))))):
+                c.check(); c.fail("expression-defect:compare:value", "constraint function of %s differs from f1 - f2" % c_["rel"])
+                raise S.Abort()
         for v in vars_:
             rv[v.idx].value = None
         return rv, obj, cons
